@@ -24,13 +24,19 @@ PLAN = {
 RULE = ("70% random discrete BNs (1-7 nodes quick / 1-8 thorough; templates ER, chain, collider, fork, >=3-parent "
         "family, two parts, isolated node, 60% of them forced to a connected moral graph so that BP accepts them; "
         "cards 1-4; state names id/1-based/permuted ints/strings/tuples/mixed; tables with exact zeros, deterministic "
-        "columns and near-tie columns (entries 1/r +- 1e-3..2e-2)) x non-empty query (1-4 vars or all non-evidence "
+        "columns and near-tie columns (entries (1/r)(1 + m k), distinct small integers k in random positions so that "
+        "the runner-up sits before or after the maximiser, relative margin m log-uniform over 1e-7..1e-2; 30% of the "
+        "CPDs, and every CPD in the 15% 'flat' models, so that ~10% of the cases have a posterior margin below 1e-5); "
+        "near-tie virtual-evidence vectors of the same kind; every case is redrawn until each posterior entry is "
+        "either an exact tie (relative gap < 1e-12) or loses by >= 1e-7 = 100 x the oracle tolerance) x non-empty query (1-4 vars or all non-evidence "
         "vars) x 0-3 hard evidence with P(e)>0 (checked by the oracle) x 0-2 virtual-evidence vectors; each BN case "
         "runs VE.map_query under MinFill / MinNeighbors / MinWeight / WeightedMinFill / None / an explicit random "
         "order, BP.map_query when the moral graph is connected, in ~35% of cases BayesianNetwork.predict "
         "(1-6 rows with P(row)>0 incl. duplicates; VE or BP; int / category / object columns) and in ~30% of "
         "multi-variable queries DiscreteFactor.maximize of the posterior.  30% Markov networks (2-6 variables, "
-        "cards 1-4, pairwise + unary + triangle factors, near-tie tables, not necessarily connected; 40% of them "
+        "cards 1-4, pairwise + unary + triangle factors, near-tie tables with the same log-uniform margins (15% 'flat' "
+        "networks), potentials scaled overall by 10**U(-8,-3) (22%), by 1e3 (8%) or per scope by 10**U(-8,3) (8%), "
+        "not necessarily connected; 40% of them "
         "carry equal factors: exact copies, copies with the other variable order, the same factor object listed "
         "twice, factors that coincide only on the evidence slice; ~15% of the others get one virtual-evidence "
         "vector) x VE.map_query under the same order options.  non-trivial: >=2 variables, >=1 edge (BN) / >=2 factors (MN), and evidence or a non-query "
@@ -73,12 +79,34 @@ RTOL = 1e-9
 
 
 # ------------------------------------------------------------------------------ generators
-def near_tie_column(rng, r):
-    """Column whose entries are 1/r +- a few 1e-3 .. 2e-2, pairwise different by >= 1e-3."""
+GAP_LO, GAP_HI = 1e-12, 1e-7     # see decisive()
+MARGIN_LO = -7.0                 # near-tie margins are 10**U(MARGIN_LO, -2): log-uniform over 1e-7 .. 1e-2
+
+
+def decisive(post):
+    """True iff every entry of the posterior is either an exact tie with the maximum (relative gap < 1e-12,
+    i.e. rounding noise) or loses by a relative margin >= 1e-7 = 100 x the oracle's tie tolerance.  Cases are
+    drawn until this holds, so the oracle's verdict never hinges on the grey band next to its tolerance."""
+    flat = np.asarray(post, dtype=float).reshape(-1)
+    best = float(flat.max())
+    if not best > 0:
+        return False
+    gap = (best - flat) / best
+    return not bool(np.any((gap > GAP_LO) & (gap < GAP_HI)))
+
+
+def margin(rng, lo=MARGIN_LO):
+    return 10.0 ** rng.uniform(lo, -2.0)
+
+
+def near_tie_column(rng, r, lo=MARGIN_LO):
+    """Column (1/r)(1 + m*k_i): distinct small integers k_i in random positions (so the runner-up sits before
+    or after the maximiser), relative margin m log-uniform over 1e-7 .. 1e-2."""
     if r == 1:
         return [1.0]
-    steps = rng.sample(range(-20, 21), r)          # distinct multiples of 1e-3
-    col = [1.0 / r + 1e-3 * s for s in steps]
+    m = margin(rng, lo)
+    steps = rng.sample(range(-4, 5), r)
+    col = [(1.0 / r) * (1.0 + m * k) for k in steps]
     s = sum(col)
     col = [c / s for c in col]
     i = max(range(r), key=lambda t: col[t])
@@ -132,7 +160,7 @@ def moral_pairs(bn):
     return pairs
 
 
-def bn_spec(rng, tier):
+def bn_spec(rng, tier, lo=MARGIN_LO):
     n_hi = 8 if tier == "thorough" else 7
     n = rng.randint(1, n_hi)
     nodes = [f"v{i}" for i in range(n)]
@@ -151,23 +179,24 @@ def bn_spec(rng, tier):
     states = {v: gen.state_names_for(rng, v, card[v], kind) for v in nodes}
     par = gen.parents_of(nodes, edges)
     cpds = {}
+    flat = rng.random() < 0.15           # every CPD near-uniform: all posteriors of the model are near-ties
     for v in nodes:
         pa = par[v][:]
         rng.shuffle(pa)
         q = 1
         for p in pa:
             q *= card[p]
-        if rng.random() < 0.3:
-            cols = [near_tie_column(rng, card[v]) for _ in range(q)]
+        if flat or rng.random() < 0.3:
+            cols = [near_tie_column(rng, card[v], lo) for _ in range(q)]
             table = [[cols[j][i] for j in range(q)] for i in range(card[v])]
         else:
             table = gen.rand_cpt(rng, card[v], q, True)
         cpds[v] = {"parents": pa, "table": table}
     return {"nodes": nodes, "edges": [list(e) for e in edges], "card": card, "states": states,
-            "cpds": cpds, "latents": [], "kind": kind}
+            "cpds": cpds, "latents": [], "kind": kind, "flat": flat}
 
 
-def mn_spec(rng, tier):
+def mn_spec(rng, tier, lo=MARGIN_LO):
     n = rng.randint(2, 6)
     nodes = [f"m{i}" for i in range(n)]
     kind = rng.choice(["id", "str", "mixed", "int1", "perm", "tuple"])
@@ -198,15 +227,17 @@ def mn_spec(rng, tier):
                 if rng.random() < 0.25 and (order[i], order[j]) not in edges and (order[j], order[i]) not in edges:
                     edges.append((order[i], order[j]))
     eset = {frozenset(e) for e in edges}
+    flat_mn = rng.random() < 0.15        # every factor near-constant
 
     def rand_vals(vs, near=False, zeros=True):
         size = 1
         for v in vs:
             size *= card[v]
-        if near:
-            steps = [rng.randint(-20, 20) for _ in range(size)]
+        if near or flat_mn:
+            m = margin(rng, lo)
+            steps = [rng.randint(-4, 4) for _ in range(size)]
             base = rng.choice([0.5, 1.0, 2.0])
-            return [base * (1 + 1e-3 * s) for s in steps]
+            return [base * (1 + m * k) for k in steps]
         flat = [rng.choice(gen.GRID) * (1 + rng.randint(0, 3)) if (not zeros or rng.random() > 0.1) else 0.0
                 for _ in range(size)]
         if all(x == 0 for x in flat):
@@ -261,11 +292,34 @@ def mn_spec(rng, tier):
         factors.append(f)
         if dups and rng.random() < 0.15:
             factors.append({"vars": list(t), "values": list(f["values"])})
+    # overall scale of the potentials (the posterior does not depend on it; the elimination engine does not
+    # normalise a Markov network's result, so its argmax sees the raw magnitudes)
+    x = rng.random()
+    scale = "1"
+    if x < 0.22:
+        scale = "tiny"
+        k = 10.0 ** rng.uniform(-8.0, -3.0)
+        by_scope = None
+    elif x < 0.30:
+        scale = "1e3"
+        k = 1e3
+        by_scope = None
+    elif x < 0.38:
+        scale = "mixed"                   # one scale per scope, so that equal factors stay equal
+        by_scope = {}
+    if scale != "1":
+        for f in factors:
+            if by_scope is not None:
+                key = tuple(sorted(f["vars"]))
+                if key not in by_scope:
+                    by_scope[key] = 10.0 ** rng.uniform(-8.0, 3.0)
+                k = by_scope[key]
+            f["values"] = [float(t) * k for t in f["values"]]
     return {"nodes": nodes, "edges": [list(e) for e in edges], "card": card, "states": states,
-            "factors": factors, "kind": kind}
+            "factors": factors, "kind": kind, "flat": flat_mn, "scale": scale}
 
 
-def gen_query(rng, card, nodes, J, allow_virtual, force_ev=None):
+def gen_query(rng, card, nodes, J, allow_virtual, force_ev=None, lo=MARGIN_LO):
     """query vars, hard evidence (state index) with P(e) > 0 under the oracle, virtual-evidence vectors."""
     n = len(nodes)
     if rng.random() < 0.2:
@@ -277,7 +331,8 @@ def gen_query(rng, card, nodes, J, allow_virtual, force_ev=None):
     if allow_virtual and rng.random() < 0.5:
         for v in rng.sample(nodes, rng.randint(1, min(2, n))):
             if rng.random() < 0.3:
-                vec = [round(0.5 + 1e-3 * s, 4) for s in rng.sample(range(-20, 21), card[v])]
+                m = margin(rng, lo)
+                vec = [0.5 * (1.0 + m * k) for k in rng.sample(range(-4, 5), card[v])]
             else:
                 vec = [rng.choice([0.05, 0.2, 0.5, 0.7, 0.9, 1.0]) for _ in range(card[v])]
             if rng.random() < 0.2 and card[v] > 1:
@@ -328,9 +383,14 @@ def gen_predict(rng, bn, nodes, J, connected):
     cols = rng.sample(nodes, rng.randint(1, n - 1))
     pos = [idx for idx in itertools.product(*[range(bn["card"][v]) for v in nodes]) if J[idx] > 1e-12]
     rows = []
+    missing = [v for v in nodes if v not in cols]
     for _ in range(rng.randint(1, 6)):
         full = rng.choice(pos)
-        rows.append([full[nodes.index(c)] for c in cols])
+        row = [full[nodes.index(c)] for c in cols]
+        if decisive(oracle.posterior(nodes, J, missing, dict(zip(cols, row)))[1]):
+            rows.append(row)
+    if not rows:
+        return None
     if rng.random() < 0.5:
         rows.append(list(rows[0]))
     algo = "bp" if (connected and rng.random() < 0.3) else "ve"
@@ -340,12 +400,24 @@ def gen_predict(rng, bn, nodes, J, connected):
             "order": rng.choice(["default", "default", "MinWeight", "WeightedMinFill", "none"]) if algo == "ve" else "default"}
 
 
+def _likes(virt):
+    likes = {}
+    for d in virt:
+        likes[d["var"]] = np.array(d["vec"]) * likes.get(d["var"], 1.0)
+    return likes
+
+
 def gen_case(seed, idx, tier):
     rng = gen.rng_for("C03", seed, idx)
     if rng.random() < 0.7:
-        bn = bn_spec(rng, tier)
-        nodes, J = oracle.joint_table(bn)
-        query, ev, virt = gen_query(rng, bn["card"], nodes, J, allow_virtual=rng.random() < 0.5)
+        # drawn again until the posterior is decisive (see decisive()); the last draws use coarse margins only
+        for attempt in range(12):
+            lo = MARGIN_LO if attempt < 8 else -3.0
+            bn = bn_spec(rng, tier, lo)
+            nodes, J = oracle.joint_table(bn)
+            query, ev, virt = gen_query(rng, bn["card"], nodes, J, allow_virtual=rng.random() < 0.5, lo=lo)
+            if decisive(oracle.posterior(nodes, J, query, ev, _likes(virt))[1]):
+                break
         elim = [v for v in nodes if v not in query and v not in ev]
         perm = elim[:]
         rng.shuffle(perm)
@@ -356,38 +428,45 @@ def gen_case(seed, idx, tier):
             mx = rng.sample(query, rng.randint(1, len(query) - 1))
         return {"model": "bn", "bn": bn, "query": query, "evidence": ev, "virtual": virt, "perm": perm,
                 "connected": connected, "predict": pred, "maximize": mx, "build_seed": rng.randrange(10 ** 6)}
-    for _ in range(50):
-        mn = mn_spec(rng, tier)
-        nodes, J = oracle.mn_joint(mn)
-        if J.sum() > 0:
+    for attempt in range(12):
+        lo = MARGIN_LO if attempt < 8 else -3.0
+        for _ in range(50):
+            mn = mn_spec(rng, tier, lo)
+            nodes, J = oracle.mn_joint(mn)
+            if J.sum() > 0:
+                break
+        J = J / J.sum()                    # the potentials may be scaled by 1e-8 each: thresholds below are relative
+        twins = [f["slice_twin"] for f in mn["factors"] if "slice_twin" in f]
+        force = None
+        if twins and rng.random() < 0.6:
+            force = twins[0]
+        query, ev, _ = gen_query(rng, mn["card"], nodes, J, allow_virtual=False,
+                                 force_ev=[force[0]] if force else None)
+        if force and force[0] in ev:
+            # make the evidence hit the slice on which two factors coincide, if that slice has positive mass
+            test = dict(ev)
+            test[force[0]] = force[1]
+            sl = tuple(test.get(v, slice(None)) for v in nodes)
+            if J[sl].sum() > 1e-12:
+                ev = test
+        # virtual evidence on a Markov network (the quantifier names "all evidence including virtual evidence" for
+        # both model classes); kept apart from the equal-factor cases so that each finding has its own cases
+        virt = []
+        cand = [v for v in nodes if v not in ev and mn["card"][v] > 1]
+        if MN_VIRTUAL and cand and rng.random() < 0.2 and not reduced_groups(mn, list(ev), ev):
+            v = rng.choice(cand)
+            vec = [rng.choice([0.02, 0.1, 0.3, 0.6, 0.9, 1.0]) for _ in range(mn["card"][v])]
+            sl = tuple(ev.get(x, slice(None)) for x in nodes)
+            W = np.moveaxis(np.asarray(J[sl]), [x for x in nodes if x not in ev].index(v), -1) * np.array(vec)
+            if W.sum() > 1e-12:
+                virt = [{"var": v, "vec": vec, "form": rng.choice(["cpd", "factor"])}]
+        # decisive with and without the virtual evidence (the classifier of the known finding judges both)
+        if decisive(oracle.posterior(nodes, J, query, ev, _likes(virt))[1]) and \
+                decisive(oracle.posterior(nodes, J, query, ev)[1]):
             break
-    twins = [f["slice_twin"] for f in mn["factors"] if "slice_twin" in f]
-    force = None
-    if twins and rng.random() < 0.6:
-        force = twins[0]
-    query, ev, _ = gen_query(rng, mn["card"], nodes, J, allow_virtual=False,
-                             force_ev=[force[0]] if force else None)
-    if force and force[0] in ev:
-        # make the evidence hit the slice on which two factors coincide, if that slice has positive mass
-        test = dict(ev)
-        test[force[0]] = force[1]
-        sl = tuple(test.get(v, slice(None)) for v in nodes)
-        if J[sl].sum() > 1e-12:
-            ev = test
     elim = [v for v in nodes if v not in query and v not in ev]
     perm = elim[:]
     rng.shuffle(perm)
-    # virtual evidence on a Markov network (the quantifier names "all evidence including virtual evidence" for
-    # both model classes); kept apart from the equal-factor cases so that each finding has its own cases
-    virt = []
-    cand = [v for v in nodes if v not in ev and mn["card"][v] > 1]
-    if MN_VIRTUAL and cand and rng.random() < 0.2 and not reduced_groups(mn, list(ev), ev):
-        v = rng.choice(cand)
-        vec = [rng.choice([0.02, 0.1, 0.3, 0.6, 0.9, 1.0]) for _ in range(mn["card"][v])]
-        sl = tuple(ev.get(x, slice(None)) for x in nodes)
-        W = np.moveaxis(np.asarray(J[sl]), [x for x in nodes if x not in ev].index(v), -1) * np.array(vec)
-        if W.sum() > 1e-12:
-            virt = [{"var": v, "vec": vec, "form": rng.choice(["cpd", "factor"])}]
     return {"model": "mn", "mn": mn, "query": query, "evidence": ev, "virtual": virt, "perm": perm,
             "build_seed": rng.randrange(10 ** 6)}
 
@@ -564,7 +643,7 @@ def run_bn(spec, ctx):
     for f in ("bn", "virtual" if virt else None, "evidence" if ev else None, f"kind:{bn['kind']}",
               "card1" if 1 in card.values() else None, "connected" if spec["connected"] else "disconnected",
               "query-all" if len(query) + len(ev) == len(nodes) else None,
-              "unique-max" if _unique_max(post) else "tied-max"):
+              "unique-max" if _unique_max(post) else "tied-max", _margin_class(post), "flat-model" if bn.get("flat") else None):
         if f:
             ctx.feature(f)
     ev_named = {v: states[v][s] for v, s in ev.items()}
@@ -657,7 +736,19 @@ def run_bn(spec, ctx):
 
 def _unique_max(post):
     flat = np.sort(np.asarray(post, dtype=float).reshape(-1))
-    return flat.size == 1 or flat[-2] < flat[-1] * (1 - 1e-6)
+    return flat.size == 1 or flat[-2] < flat[-1] * (1 - GAP_LO)
+
+
+def _margin_class(post):
+    """Feature tag: relative margin by which the maximum beats the best non-tied entry."""
+    flat = np.asarray(post, dtype=float).reshape(-1)
+    best = float(flat.max())
+    gap = (best - flat) / best
+    gap = gap[gap > GAP_LO]
+    if gap.size == 0:
+        return None
+    g = float(gap.min())
+    return "margin<1e-5" if g < 1e-5 else ("margin<1e-3" if g < 1e-3 else None)
 
 
 # ------------------------------------------------------------------------------------ Markov networks
@@ -753,7 +844,8 @@ def run_mn(spec, ctx):
     ctx.nontrivial = len(nodes) >= 2 and len(mn["factors"]) >= 2 and (len(ev) > 0 or len(query) < len(nodes))
     for f in ("mn", "evidence" if ev else None, f"kind:{mn['kind']}", "mn-equal-factors" if groups else None,
               "mn-virtual" if virt else None,
-              "unique-max" if _unique_max(post) else "tied-max"):
+              "unique-max" if _unique_max(post) else "tied-max", _margin_class(post), "flat-model" if mn.get("flat") else None,
+              f"mn-scale:{mn.get('scale', '1')}"):
         if f:
             ctx.feature(f)
     detail = dict(q=query, ev={v: states[v][s] for v, s in ev.items()}, virt=virt)
